@@ -3,6 +3,7 @@ package rules
 import (
 	"fmt"
 	"go/token"
+	"strings"
 
 	"golang.org/x/tools/go/ssa"
 
@@ -50,6 +51,7 @@ func runC01(c *core.Ctx) {
 	c01R7(c)
 	c01R8(c)
 	c01R9(c)
+	c01R10(c)
 }
 
 // sizeZeroPred: subs.Size()==0 of node base
@@ -665,5 +667,153 @@ func c01R9(c *core.Ctx) {
 			ok, w = eng.MustFollow(f, []eng.Pred{eng.ValuePred("contract found", f0, true), eng.ValuePred("share found", fs, true)}, func(i ssa.Instruction) bool { return eng.IsCallTo(i, idRandomByGroup) })
 			c.Check(ok, rule, fnName(f)+":randomByGroup always called", ls.Pos(), "an existing share node always gets its per-group pick", fmt.Sprintf("share node exists but randomByGroup is skipped: %v", w))
 		}
+	}
+}
+
+// c01R10: node construction and the subscriber-set primitives.
+func c01R10(c *core.Ctx) {
+	rule := "C01.R10"
+	c.Rule(rule, "Trie.Subscribe builds a missing child as node{word: the level word, parent: the current node, fresh subs and children} and links it as curr.children[word]; Subscribers.AddRange copies exactly the entries with filter == nil or filter(v) under their own key; AddUnique inserts only a non-nil value that is absent; Remove deletes only a present one", 4)
+	if f := fn(c, rule, "internal/message", "Trie", "Subscribe"); f != nil {
+		ok := false
+		eng.Instrs(f, func(in ssa.Instruction) {
+			al, isAl := in.(*ssa.Alloc)
+			if !isAl || !al.Heap || shortT(al.Type().String()) != "*message.node" && !strings.HasSuffix(al.Type().String(), "message.node") {
+				return
+			}
+			got := map[string]ssa.Value{}
+			if refs := al.Referrers(); refs != nil {
+				for _, r := range *refs {
+					if fa, isFA := r.(*ssa.FieldAddr); isFA {
+						_, fl, _, _ := eng.FieldOf(fa)
+						if frefs := fa.Referrers(); frefs != nil {
+							for _, fr := range *frefs {
+								if st, isSt := fr.(*ssa.Store); isSt && st.Addr == fa {
+									got[fl] = st.Val
+								}
+							}
+						}
+					}
+				}
+			}
+			// linked under its own word in the parent's children
+			linked := false
+			eng.Instrs(f, func(i2 ssa.Instruction) {
+				if mu, isMU := i2.(*ssa.MapUpdate); isMU && mu.Value == ssa.Value(al) && mu.Key == got["word"] {
+					if b, isCh := eng.LoadOfField(mu.Map, "children"); isCh && b == got["parent"] {
+						linked = true
+					}
+				}
+			})
+			_, freshKids := got["children"].(*ssa.MakeMap)
+			freshSubs := false
+			switch sv := got["subs"].(type) {
+			case *ssa.Call:
+				freshSubs = eng.FuncID(eng.CalleeObj(&sv.Call)) == M+"message.newSubscribers"
+			case *ssa.MakeMap:
+				freshSubs = true
+			}
+			if got["word"] != nil && got["parent"] != nil && linked && freshKids && freshSubs {
+				ok = true
+			}
+		})
+		c.Check(ok, rule, fnName(f)+":child node construction", f.Pos(), "a new level is created with its word, its parent pointer and fresh sets, and linked under that word", "Trie.Subscribe does not build the missing child with word/parent/fresh subs+children and link it as parent.children[word] (pruning and lookups depend on these fields)")
+	}
+	if f := fn(c, rule, "internal/message", "Subscribers", "AddRange"); f != nil {
+		var mu *ssa.MapUpdate
+		eng.Instrs(f, func(in ssa.Instruction) {
+			if x, ok := in.(*ssa.MapUpdate); ok {
+				mu = x
+			}
+		})
+		ok := mu != nil
+		if ok {
+			flt := f.Params[2]
+			pass := eng.Pred{Name: "filter==nil or filter(v)", Match: func(a eng.Atom) (bool, bool) {
+				if a.Op == token.EQL {
+					if (a.X == flt && eng.IsNilConst(a.Y)) || (a.Y == flt && eng.IsNilConst(a.X)) {
+						return true, true
+					}
+				}
+				if a.Op == token.ILLEGAL {
+					if call, isCall := a.V.(*ssa.Call); isCall && call.Call.Value == flt {
+						return true, true
+					}
+				}
+				return false, false
+			}}
+			g := eng.Guarded(mu, pass)
+			// key and value are the ranged pair
+			kv := false
+			if ek, isE := mu.Key.(*ssa.Extract); isE && ek.Index == 1 {
+				if ev, isE2 := mu.Value.(*ssa.Extract); isE2 && ev.Index == 2 && ev.Tuple == ek.Tuple {
+					kv = true
+				}
+			}
+			ok = g.Guarded && g.Edges >= 2 && kv
+			// two-sided: each alternative alone leads to the copy
+			isNil := eng.EqPred("filter==nil", true, func(x, y ssa.Value) bool { return x == flt && eng.IsNilConst(y) })
+			admits := eng.Pred{Name: "filter(v)", Match: func(a eng.Atom) (bool, bool) {
+				if a.Op == token.ILLEGAL {
+					if call, isCall := a.V.(*ssa.Call); isCall && call.Call.Value == flt {
+						return true, true
+					}
+				}
+				return false, false
+			}}
+			inLoop := func(i ssa.Instruction) bool { return i == ssa.Instruction(mu) }
+			ok1, _ := eng.MustFollow(f, []eng.Pred{isNil}, func(i ssa.Instruction) bool {
+				// only the paths that enter the loop body matter: a return reached with the flag set
+				// but without any element is fine, so count the range-done exit as satisfied
+				return inLoop(i)
+			})
+			ok2, _ := eng.MustFollow(f, []eng.Pred{admits}, inLoop)
+			ok = ok && ok1 && ok2 && eng.HasLicensingEdge(f, isNil) && eng.HasLicensingEdge(f, admits)
+		}
+		c.Check(ok, rule, fnName(f)+":filtered copy", f.Pos(), "AddRange copies (id, v) exactly when no filter is given or the filter admits v", "Subscribers.AddRange does not copy each entry under its own key exactly when filter == nil || filter(v)")
+	}
+	for _, k := range []struct {
+		name  string
+		found bool
+	}{{"AddUnique", false}, {"Remove", true}} {
+		f := fn(c, rule, "internal/message", "Subscribers", k.name)
+		if f == nil {
+			continue
+		}
+		var eff ssa.Instruction
+		var lk *ssa.Lookup
+		eng.Instrs(f, func(in ssa.Instruction) {
+			switch x := in.(type) {
+			case *ssa.MapUpdate:
+				if k.name == "AddUnique" {
+					eff = x
+				}
+			case *ssa.Lookup:
+				if x.CommaOk {
+					lk = x
+				}
+			}
+			if _, isDel := eng.IsBuiltinCall(in, "delete"); isDel && k.name == "Remove" {
+				eff = in
+			}
+		})
+		ok := eff != nil && lk != nil
+		if ok {
+			present := eng.ValuePred("present", extractOf(lk, 1), k.found)
+			notNil := eng.EqPred("value != nil", false, func(x, y ssa.Value) bool { return x == f.Params[1] && eng.IsNilConst(y) })
+			g1, g2 := eng.Guarded(eff, present), eng.Guarded(eff, notNil)
+			ok = g1.Guarded && g1.Edges > 0 && g2.Guarded && g2.Edges > 0
+			// result true iff the effect happened
+			eng.Instrs(f, func(in ssa.Instruction) {
+				ret, isRet := in.(*ssa.Return)
+				if !isRet {
+					return
+				}
+				if b, isC := constBoolOf(ret.Results[0]); isC && b && !eng.Dominates(eff, ret) {
+					ok = false
+				}
+			})
+		}
+		c.Check(ok, rule, fnName(f)+":set semantics", f.Pos(), k.name+" changes the set exactly when it reports true", "Subscribers."+k.name+" does not have set semantics (effect only for a non-nil value that is "+map[bool]string{false: "absent", true: "present"}[k.found]+", true only after the effect)")
 	}
 }
